@@ -706,15 +706,37 @@ def _sample(w, o):
     return str(st)
 
 
+def _perturb_between(w, o):
+    """F-prng between the two halves of a 'same seed twice' pair."""
+    from . import seams  # noqa: PLC0415
+
+    for kind, k in o["twice"]:
+        if kind == "other_sample":
+            other = w.pool["sam"].get(k)
+            if other is not None:
+                try:
+                    other.sample_N_inputs(30, seed=7)
+                    other.sample()
+                except Exception:  # noqa: BLE001
+                    pass
+                w.stats["fault:prng_other_sampler"] += 1
+        else:
+            seams.perturb(w, kind, k)
+
+
 def _sample_n(w, o, method):
     s = w.get("sam", o["s"])
     ps = _psobj(w, o.get("ps"))
     w.extra["last_result"] = None
+    w.extra["second_result"] = None
     w.extra["pred_fault_fired"] = False
     kw = {"post_select": ps, "min_detection": o.get("md", 0)}
     if "seed" in o:
         kw["seed"] = o["seed"]
     r = w.call(getattr(s, method), o["n"], **kw)
+    if o.get("twice") is not None:
+        _perturb_between(w, o)
+        w.extra["second_result"] = w.call(getattr(s, method), o["n"], **kw)
     w.extra["last_result"] = r
     w.m("sam", o["s"])["state"] = "sampled"
     return result_summary(r)
@@ -734,11 +756,15 @@ def _sample_n_outputs(w, o):
 def _quick_n_outputs(w, o):
     q = w.get("qs", o["s"])
     w.extra["last_result"] = None
+    w.extra["second_result"] = None
     w.extra["pred_fault_fired"] = False
     kw = {}
     if "seed" in o:
         kw["seed"] = o["seed"]
     r = w.call(q.sample_N_outputs, o["n"], **kw)
+    if o.get("twice") is not None:
+        _perturb_between(w, o)
+        w.extra["second_result"] = w.call(q.sample_N_outputs, o["n"], **kw)
     w.extra["last_result"] = r
     w.m("qs", o["s"])["state"] = "sampled"
     return result_summary(r)
@@ -758,3 +784,26 @@ def _analyze(w, o):
     w.extra["last_result"] = r
     w.m("an", o["s"])["state"] = "analyzed"
     return [list(r.array.shape), round(float(r.performance), 12)]
+
+
+@op("sample_many")
+def _sample_many(w, o):
+    """n calls of sample() driven by the S1 stream from a given state."""
+    from collections import Counter  # noqa: PLC0415
+
+    from . import seams  # noqa: PLC0415
+
+    s = w.get(o["kind"], o["s"])
+    seams.set_stream(w, o["stream"])
+    if o.get("script") is not None:
+        seams.script_draws(w, o["script"])
+    w.extra["last_result"] = None
+    cnt: Counter = Counter()
+    try:
+        for _ in range(o["n"]):
+            cnt[w.call(s.sample)] += 1
+    finally:
+        seams.script_draws(w, [])
+    w.extra["last_result"] = cnt
+    w.m(o["kind"], o["s"])["state"] = "sampled"
+    return sorted((str(k), v) for k, v in cnt.items())
